@@ -3,4 +3,5 @@ import Driver.Rid
 import Driver.Evq
 import Driver.EvqConc
 import Driver.StreamD
+import Driver.NetD
 import Driver.Main
